@@ -304,6 +304,10 @@ def handleLine (st : State) (line : String) : State × String :=
   | ["big", _pid, _len, ok] =>
     -- a long conforming document (judged by the harness: returned unchanged by every entry point)
     (st, verdict true "-" (if ok == "1" then [] else ["C06", "C07", "C14", "C15", "C16"]) [])
+  | ["unchanged", _pid, _before, _after, ok] =>
+    -- the policy read back after it was used (sequentially, or by several goroutines) against what it
+    -- read as when it was finished
+    (st, verdict true "-" (if ok == "1" then [] else ["C13"]) [])
   | ["alias", _inp, _outCopy, _out, ok] =>
     -- a result handed out earlier changed (or the caller's input buffer did) while the library was used again
     (st, verdict true "-" (if ok == "1" then [] else ["C01", "C13", "C15"]) [])
